@@ -776,6 +776,13 @@ def check_C13(chk):
                                         L.Test(2, body=[("expect",)] * (n // 2) + [("c", 1)]),
                                         L.Test(3, body=[("c", 1), ("calle",)])])
             probe = False
+        if g in (1, 3):
+            # one mocked function name reached through two call sites with different mock(...) argument lists, the
+            # shorter one first: whatever the engine remembers about a mocked function may not outlive the test
+            two = [[("twoa",), ("c", 1)], [("twob",)], [("twoa",)], [("twob",), ("twoa",)]] if g == 1 else [[("twob",)], [("twoa",), ("twob",)], [("c", 1)], [("twoa",)]]
+            root = L.Suite(0, children=[L.Test(0, body=two[0]), L.Test(1, body=two[1]),
+                                        L.Suite(1, children=[L.Test(2, body=two[2]), L.Test(3, body=two[3])])])
+            probe = False
         if g % 4 == 0:
             # several sub-suites with tests, a nested one, and own tests: state left behind by the
             # last test of one suite meets the first test of the next
